@@ -155,6 +155,45 @@ def run(prop, tier, seed, verdict, profile=None, n=None):
         if v2:
             viol = v2
             results.update(res2)
+    # ---- C13, "later presses behave exactly as if panic had not happened": the same history without the panic key
+    # events, on the implementation alone; every other operation must produce the same messages and the same state
+    twin_checked = 0
+    if prop == "C13" and not viol:
+        twins = []
+        for c in cases:
+            acts = {l.split()[1]: l.split()[2] for l in c.cfg if l.startswith("cfg.action ")}
+            pk = {k for k, a in acts.items() if a == "panic"}
+            exitk = {t for l in c.cfg if l.startswith("cfg.exit") for t in l.split()[1:]}
+            if not pk or pk & exitk:
+                continue
+            def is_panic(e):
+                t = e.split()
+                return t[0] == "key" and t[2] in pk
+            if not any(is_panic(e) for e in c.events):
+                continue
+            tw = c.clone("tw%s" % c.cid)
+            tw.events = [e for e in c.events if not is_panic(e)]
+            keep = [i for i, e in enumerate(c.events) if not is_panic(e)]
+            twins.append((c, tw, keep))
+        if twins:
+            rt = dev.execute([t for _, t, _ in twins], binary, workdir, tag="twin", jobs=12)
+            for c, tw, keep in twins:
+                a, b = results[str(c.cid)], rt[str(tw.cid)]
+                if a.get("crash") or b.get("crash"):
+                    continue
+                twin_checked += 1
+                # line 0 answers cfg.end; events follow; a trailing line answers the disconnect
+                la = [a["go"][0]] + [a["go"][1 + i] for i in keep if 1 + i < len(a["go"])] + a["go"][1 + len(c.events):]
+                lb = b["go"]
+                if la != lb:
+                    k = next((i for i in range(min(len(la), len(lb))) if la[i] != lb[i]), min(len(la), len(lb)))
+                    ops_b = ["cfg.end"] + tw.events + (["disconnect"] if tw.disconnect else [])
+                    verdict.violation({"clause": "as-if-panic-had-not-happened", "events": c.events, "cfg": c.cfg},
+                                      {"case": c.to_json(), "same_history_without_panic_keys": tw.to_json(),
+                                       "first_differing_operation": ops_b[k] if k < len(ops_b) else None,
+                                       "with_panic": la[k] if k < len(la) else None, "without_panic": lb[k] if k < len(lb) else None,
+                                       "what": "an operation other than the panic key itself behaves differently because a panic happened earlier"}, True)
+                    break
     # ---- report
     for c, fails in viol[:3]:
         f0 = fails[0]
@@ -213,6 +252,7 @@ def run(prop, tier, seed, verdict, profile=None, n=None):
         "with_disconnect": sum(1 for c in cases if c.disconnect),
         "corpus_cases": len(corpus),
         "disagreements": len(disag), "monitor_failures": len(viol), "extra_search_cases": extra_searched,
+        "panic_twin_histories_compared": twin_checked,
         "exec_wall_s": round(time.time() - t0, 1),
     }
     return cov
